@@ -284,6 +284,7 @@ func init() {
 		sops := []string{
 			"sauth:S1:0:1:G1", "sauth:S1:0:4:G1", "sauth:S1:1:1:G1", "sauth:S1:1:4:G1", "sauth:S2:0:1:G1", "sauth:S2:1:1:G1",
 			"sauth:S1:0:1:G2", "sauth:S1:1:1:temp", "sauth:S3:0:1:srv",
+			"sauth:S1:0:1:G1:9:stale", "sauth:S2:0:1:G1:9:staleport",
 		}
 		depth := 4
 		if tier == "thorough" {
